@@ -159,14 +159,28 @@ def run(tier, replay=None):
         m_idx = int(ans[2 * i])
         m_inc = ans[2 * i + 1]
         arr = np.array(g, dtype=np.int64)
-        i_idx = int(J.genotype_alleles_as_index(arr))
+        chk.breadcrumb("encode/increment/decode", {"n_alleles": n, "ploidy": p, "genotype": g})
+        try:
+            i_idx = int(J.genotype_alleles_as_index(arr))
+        except Exception as e:
+            chk.violation(f"genotype_alleles_as_index raised {type(e).__name__} on a valid ascending genotype",
+                          {"n_alleles": n, "ploidy": p, "genotype": g}, "C11/index/exception")
+            continue
         nxt = arr.copy()
         try:
             J.increment_genotype(nxt)
             i_inc = " ".join(map(str, nxt.tolist()))
         except Exception as e:
             i_inc = f"error:{type(e).__name__}"
-        i_dec = J.index_as_genotype_alleles(i_idx, p).tolist()
+        N_ = math.comb(n + p - 1, p)
+        if not (0 <= i_idx < N_):
+            chk.violation(f"index {i_idx} of genotype outside 0..N-1 (N={N_})", {"n_alleles": n, "ploidy": p, "genotype": g}, "C11/index/range")
+            continue
+        try:
+            i_dec = J.index_as_genotype_alleles(i_idx, p).tolist()
+        except Exception as e:
+            chk.violation(f"index_as_genotype_alleles raised {type(e).__name__}", {"index": i_idx, "ploidy": p}, "C11/decode/exception")
+            continue
         nontriv = len(set(g)) >= 3 and len(set(g)) < len(g)
         chk.count(f"genotype:ploidy={p}")
         chk.case(lines[2 * i], nontriv, sample={"request": lines[2 * i], "impl": i_idx, "model": m_idx})
@@ -183,7 +197,10 @@ def run(tier, replay=None):
             chk.violation("index_as_genotype_alleles(genotype_alleles_as_index(g)) != g",
                           {**case, "index": i_idx, "decoded": i_dec}, "C11/index/roundtrip")
         if not i_inc.startswith("error"):
-            j = int(J.genotype_alleles_as_index(nxt))
+            try:
+                j = int(J.genotype_alleles_as_index(nxt))
+            except Exception:
+                j = None
             if j != i_idx + 1:
                 chk.violation("increment_genotype does not advance the index by one",
                               {**case, "next": nxt.tolist(), "index": i_idx, "next_index": j}, "C11/increment/step")
@@ -203,12 +220,16 @@ def run(tier, replay=None):
         meta.append((n, p, idx))
     ans = drv.ask(lines)
     for (n, p, idx), a, line in zip(meta, ans, lines):
+        chk.breadcrumb("decode", {"index": idx, "ploidy": p, "n_alleles": n})
         impl = J.index_as_genotype_alleles(idx, p).tolist()
         chk.case(line, len(set(impl)) >= 2)
         chk.count("decode")
         if " ".join(map(str, impl)) != a:
             chk.disagreement("index_as_genotype_alleles impl != model", {"index": idx, "ploidy": p, "impl": impl, "model": a})
-        back = int(J.genotype_alleles_as_index(np.array(impl, dtype=np.int64)))
+        try:
+            back = int(J.genotype_alleles_as_index(np.array(impl, dtype=np.int64)))
+        except Exception:
+            back = None
         ok = back == idx and impl == sorted(impl) and all(0 <= x < n for x in impl)
         if not ok:
             chk.violation("decoded genotype is not the ascending genotype of that index",
@@ -228,9 +249,13 @@ def run(tier, replay=None):
         m_vcf = [tuple(map(int, x.split())) for x in ans[len(spaces) + i].split(";")]
         g = np.zeros(p, dtype=np.int64)
         impl = []
+        chk.breadcrumb("enumeration", {"n_alleles": n, "ploidy": p})
         for _ in range(len(truth)):
             impl.append(tuple(g.tolist()))
-            J.increment_genotype(g)
+            try:
+                J.increment_genotype(g)
+            except Exception:
+                break
         chk.count("enumeration")
         chk.case(lines[i], len(truth) >= 10, sample=None)
         case = {"n_alleles": n, "ploidy": p}
@@ -239,16 +264,21 @@ def run(tier, replay=None):
         if impl != m_enum:
             chk.disagreement("increment_genotype walk impl != model", case)
         if impl != truth:
-            k = next(j for j in range(len(truth)) if impl[j] != truth[j])
+            k = next((j for j in range(min(len(truth), len(impl))) if impl[j] != truth[j]), min(len(truth), len(impl)) - 1)
             chk.violation("enumerator does not visit genotypes in VCF order",
                           {**case, "position": k, "impl": impl[k], "vcf": truth[k]}, "C11/enumeration/order")
-        idxs = [int(J.genotype_alleles_as_index(np.array(t, dtype=np.int64))) for t in truth]
+        try:
+            idxs = [int(J.genotype_alleles_as_index(np.array(t, dtype=np.int64))) for t in truth]
+        except Exception:
+            idxs = [-1] * len(truth)
         if idxs != list(range(len(truth))):
             k = next(j for j in range(len(truth)) if idxs[j] != j)
             chk.violation("genotype_alleles_as_index is not the VCF position",
                           {**case, "genotype": truth[k], "vcf_position": k, "impl": idxs[k]}, "C11/index/order")
         # posterior_as_array places each probability at its VCF position
         probs = np.arange(1, len(truth) + 1, dtype=float)
+        if idxs != list(range(len(truth))):
+            continue   # posterior_as_array would write out of bounds; already reported above
         arr = posterior_as_array(np.array(truth, dtype=np.int64).reshape(len(truth), p), probs, len(truth))
         if arr.tolist() != probs.tolist():
             chk.violation("posterior_as_array does not follow the VCF order", case, "C11/posterior_as_array/order")
